@@ -161,7 +161,7 @@ pub fn run(ctx: &Ctx) -> Outcome {
         }
         co
     });
-    run_cases(ctx, &mut out, SubSpec { name: "random_surfaces", cases: if ctx.miri { 240 } else { ctx.n(600, 60_000) }, exhaustive: false, max_secs: if ctx.quick() { 30. } else { 600. } }, |i, want, st| {
+    run_cases(ctx, &mut out, SubSpec { name: "random_surfaces", cases: if ctx.miri { 240 } else { ctx.n(3_000, 60_000) }, exhaustive: false, max_secs: if ctx.quick() { 30. } else { 600. } }, |i, want, st| {
         let mut rng = ctx.rng("random_surfaces", i);
         let w = rng.int(0, 17) as i32;
         let h = rng.int(0, 9) as i32;
